@@ -152,7 +152,8 @@ def wrap_array(a, wrap, caller, tmpdir):
     return a
 
 
-CONSTRUCT = ['frame_2d', 'frame_items', 'frame_blocks', 'series', 'series_he', 'index', 'index_go', 'ih', 'frame_he', 'frame_go', 'frame_records', 'series_readonly', 'frame_view']
+CONSTRUCT = ['frame_2d', 'frame_items', 'frame_blocks', 'series', 'series_he', 'index', 'index_go', 'ih', 'frame_he', 'frame_go', 'frame_records', 'series_readonly', 'frame_view',
+             'frame_structured', 'frame_concat_2d']
 
 
 def cases(ctx):
@@ -174,8 +175,11 @@ def cases(ctx):
             elif r < 0.85:
                 name = rng.choice(ops.catalogue_names())
                 steps.append(['op', rng.randint(0, 7), name, rng.randint(0, 10 ** 6)])
-            elif r < 0.93:
+            elif r < 0.88:
                 steps.append([rng.choice(['pickle', 'deepcopy', 'copy', 'selector']), rng.randint(0, 7), rng.randint(0, 10 ** 6)])
+            elif r < 0.93:
+                # operators and one-argument methods that return arrays or containers
+                steps.append(['call1', rng.randint(0, 7), rng.randint(0, 10 ** 6)])
             else:
                 # a public call that is handed an array the caller keeps (and later writes to)
                 steps.append(['arr_arg', rng.randint(0, 7), rng.randint(0, 10 ** 6)])
@@ -214,6 +218,22 @@ def build(how, spec, caller, wrap='plain', tmpdir=None):
         blocks = gen.build_blocks(spec)
         caller.extend(blocks)
         return sf.Frame(sf.TypeBlocks.from_blocks(blocks), index=index, columns=columns)
+    if how == 'frame_structured':
+        # a structured array the caller keeps: every column of the Frame is a field of it
+        num = [(f'c{j}', a) for j, a in enumerate(arrays) if a.dtype.kind in 'iufb']
+        if not num:
+            num = [('c0', np.arange(n))]
+        sa = np.empty(n, dtype=[(nm, a.dtype) for nm, a in num])
+        for nm, a in num:
+            sa[nm] = a
+        caller.append(sa)
+        return sf.Frame.from_structured_array(sa)
+    if how == 'frame_concat_2d':
+        # several 2-D blocks of one dtype side by side (what operators and concatenation produce)
+        a2 = np.arange(n * 2, dtype=np.int64).reshape(n, 2)
+        b2 = (np.arange(n * 3, dtype=np.int64) * 7).reshape(n, 3)
+        caller.extend([a2, b2])
+        return sf.Frame.from_concat((sf.Frame(a2, index=index), sf.Frame(b2, index=index, columns=('x', 'y', 'z'))), axis=1)
     if how == 'frame_view':
         base = np.zeros((n + 1, m + 1))
         view = base[1:, 1:]
@@ -357,6 +377,35 @@ def run_step(step, live, r_aux):
         if r == 1:
             return f'Series(<{n} values>, index=<{n} labels>)', sf.Series(np.arange(n), index=np.arange(n) * 3 + 1)
         return f'IndexHierarchy.from_product(<{n}>, 2)', sf.IndexHierarchy.from_product(np.arange(n) * 2, ('a', 'b'))
+    if kind == 'call1':
+        r = step[2]
+        v = r % 11
+        from static_frame.core.index_base import IndexBase
+        if v == 0:
+            return f'round({type(tgt).__name__})', round(tgt)
+        if v == 1:
+            return f'{type(tgt).__name__} + itself', tgt + tgt
+        if v == 2:
+            return f'{type(tgt).__name__} == itself', tgt == tgt
+        if v == 3:
+            return f'abs({type(tgt).__name__})', abs(tgt)
+        if v == 4 and isinstance(tgt, sf.IndexHierarchy):
+            return 'IndexHierarchy.unique(depth 1)', tgt.unique(1)
+        if v == 5 and isinstance(tgt, sf.IndexHierarchy):
+            return 'IndexHierarchy.unique([0, 1])', tgt.unique([0, 1])
+        ix = tgt if isinstance(tgt, IndexBase) else tgt.index
+        labs = list(ix)[:2]
+        if v == 6 and labs and not isinstance(ix, sf.IndexHierarchy):
+            return f'{type(ix).__name__}.loc_searchsorted(list)', ix.loc_searchsorted(labs)
+        if v == 7 and labs and not isinstance(ix, sf.IndexHierarchy):
+            return f'{type(ix).__name__}.iloc_searchsorted(list)', ix.iloc_searchsorted(labs)
+        if v == 8 and labs:
+            return f'{type(ix).__name__}.isin(list)', ix.isin(labs + ['__absent__'] if not isinstance(ix, sf.IndexHierarchy) else labs)
+        if v == 9 and isinstance(tgt, sf.Series) and len(tgt):
+            return 'Series.iloc_searchsorted(values)', tgt.iloc_searchsorted(list(tgt.values[:2]))
+        if v == 10 and isinstance(tgt, sf.Frame) and tgt.shape[1]:
+            return 'Frame.from_concat((f, f), axis=0).values', sf.Frame.from_concat((tgt, tgt), axis=0, index=sf.IndexAutoFactory)
+        return f'-{type(tgt).__name__}', -tgt
     if kind == 'arr_arg':
         r = step[2]
         fr = tgt if isinstance(tgt, sf.Frame) else next((o for o in live if isinstance(o, sf.Frame)), None)
@@ -443,7 +492,31 @@ def evaluate(ctx, c, outs):
         return fails
     snaps = [snap(o) for o in live]
 
+    def handed_out(o):
+        """arrays a container hands out through cheap public accessors (beyond what it references)"""
+        out = []
+        for name in ('values', 'positions'):
+            try:
+                a = getattr(o, name)
+            except Exception:
+                continue
+            if isinstance(a, np.ndarray):
+                out.append((name, a))
+        if isinstance(o, sf.Frame) and o.shape[0] and o.shape[1]:
+            try:
+                out.append(('iter_array(axis=1) row', next(iter(o.iter_array(axis=1)))))
+                out.append(('round(frame) block', round(o)._blocks._blocks[0]))
+            except Exception:
+                pass
+        return out
+
     def check_all(desc, result):
+        # (a0) arrays handed out by the containers of this step
+        for o in ([result] if is_container(result) else []) + [x for x in (result if isinstance(result, list) else []) if is_container(x)][:3]:
+            for name, a in handed_out(o):
+                if a.flags.writeable:
+                    fails.append(Failure('oracle', f'after {desc}: {type(o).__name__}.{name} of the returned container is a writeable ndarray (dtype {a.dtype}, shape {a.shape})', c,
+                                         detail={'desc': desc, 'where': 'result'}))
         # (a) flags of everything reachable
         objs = list(live) + ([result] if result is not None else [])
         for oi, o in enumerate(objs):
